@@ -34,7 +34,7 @@ const holdBackBid2DAppend = false
 
 // Alter is one alteration in transit.
 type Alter struct {
-	Kind string  `json:"kind"` // wire | out.sats | out.script | out.add | version | locktime | ord.seq | ord.unlock
+	Kind string  `json:"kind"` // wire | wire-ef | out.sats | out.script | out.add | version | locktime | ord.seq | ord.unlock
 	Idx  int     `json:"idx,omitempty"`
 	U64  uint64  `json:"u64,omitempty"`
 	U32  uint32  `json:"u32,omitempty"`
@@ -64,8 +64,22 @@ func (w *world) transit(pstx *bt.Tx) (*bt.Tx, []string, error) {
 	var applied []string
 	for _, a := range w.c.Transit {
 		switch a.Kind {
-		case "wire":
-			t, err := bt.NewTxFromBytes(pstx.Bytes())
+		case "wire", "wire-ef":
+			// standard serialisation loses the in-memory previous-output values and scripts,
+			// the extended format carries them
+			raw := pstx.Bytes()
+			if a.Kind == "wire-ef" {
+				for _, in := range pstx.Inputs {
+					if in.PreviousTxScript == nil {
+						raw = nil // an input without previous-output data cannot be written in extended format
+					}
+				}
+				if raw == nil {
+					continue
+				}
+				raw = pstx.ExtendedBytes()
+			}
+			t, err := bt.NewTxFromBytes(raw)
 			if err != nil {
 				return nil, applied, err
 			}
@@ -127,7 +141,7 @@ func genTransit(t *rapid.T, c *Flow) {
 	if rapid.IntRange(0, 2).Draw(t, "transit") != 0 {
 		return
 	}
-	kinds := []string{"wire", "wire", "out.sats", "out.sats", "out.sats", "out.script", "out.add", "version", "locktime", "ord.seq", "ord.unlock"}
+	kinds := []string{"wire", "wire-ef", "wire-ef", "out.sats", "out.sats", "out.sats", "out.script", "out.add", "version", "locktime", "ord.seq", "ord.unlock"}
 	for i, n := 0, rapid.IntRange(1, 2).Draw(t, "transit_n"); i < n; i++ {
 		a := Alter{Kind: rapid.SampledFrom(kinds).Draw(t, "transit_kind"), Idx: rapid.IntRange(0, 5).Draw(t, "transit_idx")}
 		switch a.Kind {
